@@ -114,6 +114,9 @@ def _build(pkg, placement, producer, timing, two_modules=False):
         f["stmts"] += [produce_stmt(), read_stmt()]
     elif timing == "same_after":
         f["stmts"] += [read_stmt(), produce_stmt()]
+    if _vm[0] == "chained" and timing in ("same_before", "same_after"):
+        # the two sides written as one expression <first>.count(<second>): the receiver is evaluated before the argument
+        f["stmts"][-2]["chain_next"] = True
     else:
         f["stmts"] += [read_stmt()]
     pmain = gen.add_fn(p, m1, "pmain", const=2)
@@ -333,8 +336,10 @@ def run(tier, seed):
                                 jobs.append((placement, producer, timing, edit, store, populated, idx % 2 == 0, idx * 10 + 4, "assign", "eval", None, True))
                             # one or both sides of the pipeline reached through a method of a class
                             if edit == "prod_const" and (timing != "never") and (tier != "quick" or store == "local"):
-                                for vi, vm in enumerate(("producer", "reader", "both", "producer_class_by_name", "reader_thread")):
-                                    if tier == "quick" and (idx + vi) % 3 != 0 and not (placement == "top" and timing == "same_before") and not (vm == "producer_class_by_name" and placement in ("kept", "top")) and not (vm == "reader_thread" and timing == "same_before"):
+                                for vi, vm in enumerate(("producer", "reader", "both", "producer_class_by_name", "reader_thread", "chained")):
+                                    if vm == "chained" and (timing not in ("same_before", "same_after") or placement in ("kept", "kept_helper") and producer == "keep"):
+                                        continue
+                                    if tier == "quick" and (idx + vi) % 3 != 0 and not (placement == "top" and timing == "same_before") and not (vm == "producer_class_by_name" and placement in ("kept", "top")) and not (vm == "reader_thread" and timing == "same_before") and vm != "chained":
                                         continue
                                     jobs.append((placement, producer, timing, edit, store, populated, False, idx * 10 + 5 + vi, "assign", "eval", vm))
                             # the other syntactic positions of the load expression
